@@ -8,6 +8,8 @@ def gen_consts(v):
     ents = [(n, 'ola::rdm::DiscoveryAgent::' + n) for n in (
         'MAX_EMPTY_BRANCH_ATTEMPTS MAX_BRANCH_FAILURES MAX_MUTE_ATTEMPTS BROADCAST_UNMUTE_REPEATS '
         'PREAMBLE_SIZE EUID_SIZE CHECKSUM_SIZE PREAMBLE PREAMBLE_SEPARATOR').split()]
+    ents += [('UID_ALL_MANUFACTURERS', 'ola::rdm::UID::ALL_MANUFACTURERS'), ('UID_ALL_DEVICES', 'ola::rdm::UID::ALL_DEVICES'),
+             ('UID_BROADCAST_U64', 'ola::rdm::UID::AllDevices().ToUInt64()'), ('UID_SIZE', 'ola::rdm::UID::UID_SIZE')]
     return v.gen_consts_cpp(ID, ['ola/rdm/DiscoveryAgent.h'], ents,
                             os.path.join(v.VERIF, 'props', ID, 'coq', 'Gen.v'))
 
@@ -18,7 +20,7 @@ INTERNAL_KEYS = []
 RULE = ('populations of 0-64 responders (UIDs at 0000:00000000/1/2, ffff:fffffffe, ffff:ffffffff, both sides of '
         'every midpoint 2^k, clustered, adjacent pairs, long shared prefixes, random) with 0-3 misbehaving '
         'responders (keeps answering when muted, never ACKs mute, ignores range, short/long/corrupt/no-preamble '
-        'reply, flaky mute, silent), followed by an incremental run after arrivals/departures; scripted answer '
+        'reply, flaky mute, silent, responders behind a proxy that appear once the proxy is muted), followed by an incremental run after arrivals/departures; scripted answer '
         'streams (timeouts, collisions, valid frames of recurring UIDs, mutated frames of every length 0-32, '
         'failure/attempt counters driven to 4/5/6) incl. an endless tail; client histories on an asynchronous line '
         '(full/incremental Starts in any order, a Start while one is running, a Start issued from inside the '
@@ -32,7 +34,7 @@ ASSUMPTIONS = ['the DiscoveryTargetInterface answers every request exactly once 
                'operator new does not fail']
 TRUSTED = ['modelled rather than verified: DiscoveryAgent.cpp InitDiscovery/UnMuteComplete/MaybeMuteNextDevice/'
            'IncrementalMuteComplete/SendDiscovery/BranchComplete/BranchMuteComplete/HandleCollision/'
-           'SplitAroundBadUID/FreeCurrentRange/Abort, UID(uint64)/ToUInt64/cmp, UIDSet add/remove/contains, and the '
+           'SplitAroundBadUID/FreeCurrentRange/Abort/~DiscoveryAgent and the empty-stack guards of the four callbacks, UID(uint64)/ToUInt64/cmp, UIDSet add/remove/contains, and the '
            'client protocol of Session.v (refused / nested Start, Abort); constants regenerated into Gen.v',
            'the responder-population simulator exists twice (Model.v line_* and harness.cpp PopAnswer) and the two '
            'are compared only through the runs']
@@ -75,6 +77,11 @@ def gen_pop(rng, n, nbad, extremes):
     pop = [[u, 0] for u in uids]
     for i in range(min(nbad, len(pop))):
         pop[i][1] = rng.choice(BAD_KINDS)
+    if len(pop) >= 2 and rng.random() < 0.12:
+        # a proxy with one to three responders behind it
+        pop[0][1] |= 1024
+        for q in pop[1:1 + rng.randrange(1, 4)]:
+            q[1] |= 512
     rng.shuffle(pop)
     return pop
 
@@ -209,7 +216,7 @@ def gen_history(rng):
     pop = gen_pop(rng, n, rng.choice([0, 0, 0, 1]), rng.random() < 0.3)
     pop = [[u, k if not (k & 4) else 0] for u, k in pop]
     ops = ['P:' + pop_s(pop)]
-    style = rng.randrange(7)
+    style = rng.randrange(8)
     def start():
         return 'S' + rng.choice('FI') + rng.choice('nnnfi')
     if style == 0:
@@ -219,6 +226,10 @@ def gen_history(rng):
     elif style == 1:
         # a second Start while one is running; nested Start from the completion callback
         ops += [start(), 'R%d' % rng.randrange(0, 12), start(), 'R*', 'R*', start(), 'R*', 'R*']
+    elif style == 4:
+        # Abort with a request in flight whose reply arrives afterwards (every phase), then another run
+        ops += ['SFn', 'R*', 'S' + rng.choice('FI') + 'n', 'R%d' % rng.choice([0, 1, 2, 3, 4, 5, 6, 9, 15, 40]), 'A',
+                'L:' + rng.choice(['T', 'A', 'C', 'A', 'C', 'V%d' % rng.choice(uid_pool(rng))]), 'R*', 'SIn', 'R*']
     elif style == 3:
         # the agent is destroyed while a discovery is in flight (unmute / re-mute / branch phase)
         ops += ['SFn', 'R*', 'S' + rng.choice('FI') + rng.choice('nfi'),
@@ -232,7 +243,10 @@ def gen_history(rng):
             if r < 0.3: ops.append(start())
             elif r < 0.55: ops.append('R%d' % rng.choice([0, 1, 2, 3, 4, 5, 7, 10, 20, 50, 200]))
             elif r < 0.7: ops.append('R*')
-            elif r < 0.78: ops.append('A')
+            elif r < 0.78:
+                ops.append('A')
+                if rng.random() < 0.6:
+                    ops.append('L:' + rng.choice(['T', 'A', 'C', 'V%d' % rng.choice(uid_pool(rng)), 'A', 'C']))
             elif r < 0.82: ops.append('D')
             elif r < 0.9:
                 pop = [p for p in change(rng, pop) if not (p[1] & 4)]
@@ -258,14 +272,18 @@ LEVEL_TEXT = ('Coq theorems over an executable step-machine model of DiscoveryAg
               'from inside the callback do; c11_complete / c11_complete_any_state - against conforming responders a '
               'full discovery started in ANY idle state (whatever earlier, possibly aborted, runs left) returns status '
               'true and exactly the connected set; c11_incremental - an incremental discovery returns exactly the '
-              'now-connected set. Completeness assumes explicitly that the bytes of a collision do not decode as a '
+              'now-connected set; c11_bounded_tx - both within 4 + (previously known UIDs) + 98*|S| transactions; '
+              'c11_late_reply - a reply delivered after Abort() changes nothing (code with fixes/03); c11_destroy - '
+              'destroying the agent mid-run completes the run once with false. Completeness assumes explicitly that the bytes of a collision do not decode as a '
               'valid reply. The pre-fix code is refuted by two machine-checked witnesses (bounded). Model tied to the '
               'C++ by a differential check of every Branch/MuteDevice/UnMuteAll call and every completion event on an '
               'asynchronous line.')
 LEVEL_NOTE = ('Trusted: Coq kernel (incl. vm_compute for witnesses/examples), extraction (ExtrOcamlBasic), OCaml/C++ '
               'glue, generator coverage; model = code is validated by differential testing, not proved. Assumed: the '
               'target answers each request at most once and never from inside the request call; a reply that is in '
-              'flight when Abort() is called is dropped by the line (late replies after an Abort are NOT modelled); '
+              'flight when Abort() is called is dropped by the line or delivered late while no new run has been started '
+              '(a stale reply arriving after the NEXT Start is indistinguishable from that run\'s own reply and is not '
+              'modelled); '
               'Abort() is not called from inside a completion callback (by reading, the unchanged code would run that '
               'callback twice); a DUB reply length fits unsigned int. The conforming line of the completeness theorems '
               'is a Coq definition (E120.v); harness populations use byte-wise OR of colliding frames, so phantom UIDs '
